@@ -190,6 +190,10 @@ type verifE1 struct {
 	lastSig  [2]*verifE1SigRec
 	lastRev  [2]*verifE1RevRec
 
+	// when set, every HTLC eventually gets resolved (C17 needs HTLC-free
+	// states with arbitrary msat balances).
+	noPendingFate bool
+
 	// terminal conditions
 	ended        bool
 	endReason    string
@@ -270,7 +274,7 @@ func verifE1Keys(seedByte byte, base []byte) []*btcec.PrivateKey {
 	return keys
 }
 
-func verifOpenDB(dir string) (*channeldb.DB, kvdb.Backend, error) {
+func verifOpenDB(dir string, dbMods ...channeldb.OptionModifier) (*channeldb.DB, kvdb.Backend, error) {
 	backend, err := kvdb.GetBoltBackend(&kvdb.BoltBackendConfig{
 		DBPath:            dir,
 		DBFileName:        "channel.db",
@@ -282,7 +286,7 @@ func verifOpenDB(dir string) (*channeldb.DB, kvdb.Backend, error) {
 	if err != nil {
 		return nil, nil, err
 	}
-	db, err := channeldb.CreateWithBackend(backend)
+	db, err := channeldb.CreateWithBackend(backend, dbMods...)
 	if err != nil {
 		backend.Close()
 		return nil, nil, err
@@ -393,16 +397,13 @@ func verifE1New(vc *verifCtx, r *verifRng, p verifE1Params,
 	bobDir := filepath.Join(dir, "bob")
 	os.MkdirAll(aliceDir, 0o755)
 	os.MkdirAll(bobDir, 0o755)
-	dbAlice, beAlice, err := verifOpenDB(aliceDir)
+	dbAlice, beAlice, err := verifOpenDB(aliceDir, dbMods...)
 	if err != nil {
 		return nil, err
 	}
-	dbBob, beBob, err := verifOpenDB(bobDir)
+	dbBob, beBob, err := verifOpenDB(bobDir, dbMods...)
 	if err != nil {
 		return nil, err
-	}
-	for _, m := range dbMods {
-		_ = m
 	}
 
 	aMsat := lnwire.NewMSatFromSatoshis(aliceBal)
@@ -772,6 +773,9 @@ func (e *verifE1) actAdd(from int) bool {
 	}
 	h.Fate = []int{verifFateSettle, verifFateSettle, verifFateSettle, verifFateFail,
 		verifFateFail, verifFateMalformed, verifFatePending}[r.Intn(7)]
+	if e.noPendingFate && h.Fate == verifFatePending {
+		h.Fate = verifFateSettle
+	}
 	msg := &lnwire.UpdateAddHTLC{
 		ChanID:      e.chanID,
 		Amount:      h.Amt,
